@@ -490,8 +490,9 @@ class Machine:
     def on_line(self, p, line):
         w = line.split(" ")
         if w[0] == "HELLO":
-            p.pid, p.ppid = int(w[1]), int(w[2])
             how = w[4]
+            if how != "exec":
+                p.pid, p.ppid = int(w[1]), int(w[2])
             if p.inv < 0:
                 p.inv = int(w[3]) if w[3] != "-" else -1
             if how == "child":
@@ -507,6 +508,10 @@ class Machine:
                 p.role = p.label = "driver"
                 self.pending_hello -= 1
             elif how == "exec":
+                if p.pid != -1 and int(w[1]) != p.pid:
+                    # a process that did not come out of fork() (vfork/posix_spawn/clone) is using its parent's
+                    # connection: the shim does not cover that way of starting a child, so this run decides nothing
+                    raise Inconclusive("a child process was created without fork(); the seam does not cover it")
                 p.nev = 0
                 p.kcount = {}
                 p.exit_event = None
@@ -1336,6 +1341,8 @@ def main(argv):
                         continue
                     rep.violation(v["identity"], rp, "%s\n%s\n(minimised in %d executions; %d events)" % (v["desc"], v["text"], v["min_execs"], len(v["log"])))
     wall = now() - t0
+    if agg["inconclusive"] > max(20, agg["runs"] // 2):
+        rep.harness_error("%d runs were inconclusive against %d conclusive ones: the simulator cannot drive this tree" % (agg["inconclusive"], agg["runs"]))
     coverage = {
         "evaluations": agg["runs"],
         "distinct_nontrivial": len(hashes),
